@@ -133,10 +133,13 @@ func init() {
 		m := fr.m
 		p, st := newTimerObj(m, "Timer")
 		f := a[1]
+		due := m.ts.Add(m.now(), a[0].(*Term))
 		t := m.spawn(fr, nil, &nativeFn{name: "timer", f: func(m *Machine, caller *frame, _ []value) value {
 			if st.stopped {
 				return nil
 			}
+			// the callback runs at some instant not before its due time
+			m.assume(m.ts.Sle(due, m.now()))
 			st.fired = true
 			m.call(caller, nil, f, nil)
 			return nil
@@ -145,17 +148,24 @@ func init() {
 		t.name = "time.AfterFunc"
 		return p
 	})
-	mkChanTimer := func(fr *frame, typeName string, repeat int) (*value, *timerState) {
+	mkChanTimer := func(fr *frame, typeName string, repeat int, d *Term) (*value, *timerState) {
 		m := fr.m
 		p, st := newTimerObj(m, typeName)
 		ch := m.newChan(1, m.typeOf("time", "Time"))
 		st.ch = ch
 		// field C (first field of Timer/Ticker) holds the channel
 		(*p).(structure)[0] = ch
+		var due *Term
+		if d != nil {
+			due = m.ts.Add(m.now(), d)
+		}
 		t := m.spawn(fr, nil, &nativeFn{name: "timer", f: func(m *Machine, caller *frame, _ []value) value {
 			for i := 0; i < repeat; i++ {
 				if st.stopped {
 					return nil
+				}
+				if due != nil && i == 0 {
+					m.assume(m.ts.Sle(due, m.now()))
 				}
 				st.fired = true
 				m.trySend(ch, m.mkTime(m.now()))
@@ -170,19 +180,19 @@ func init() {
 		return p, st
 	}
 	reg("time.NewTimer", func(fr *frame, a []value) value {
-		p, _ := mkChanTimer(fr, "Timer", 1)
+		p, _ := mkChanTimer(fr, "Timer", 1, a[0].(*Term))
 		return p
 	})
 	reg("time.After", func(fr *frame, a []value) value {
-		_, st := mkChanTimer(fr, "Timer", 1)
+		_, st := mkChanTimer(fr, "Timer", 1, a[0].(*Term))
 		return st.ch
 	})
 	reg("time.NewTicker", func(fr *frame, a []value) value {
-		p, _ := mkChanTimer(fr, "Ticker", 2)
+		p, _ := mkChanTimer(fr, "Ticker", 2, a[0].(*Term))
 		return p
 	})
 	reg("time.Tick", func(fr *frame, a []value) value {
-		_, st := mkChanTimer(fr, "Ticker", 2)
+		_, st := mkChanTimer(fr, "Ticker", 2, a[0].(*Term))
 		return st.ch
 	})
 	reg("(*time.Timer).Stop", func(fr *frame, a []value) value {
